@@ -98,8 +98,8 @@ func sentenceCases(m *ref.Model, l int, base []string, heavy bool, emit func(SCa
 			mk(t, "transposition")
 		}
 	}
-	// every word count 0..27 (truncate / extend cyclically)
-	for k := 0; k <= 27; k++ {
+	// every word count 0..50 (truncate / extend cyclically)
+	for k := 0; k <= 50; k++ {
 		if k == n {
 			continue
 		}
@@ -152,12 +152,117 @@ func sentenceCases(m *ref.Model, l int, base []string, heavy bool, emit func(SCa
 			mk(t, "token-damage")
 		}
 	}
-	// separator damage (not canonical: only the implication of C03 applies)
+	// empty token in place of a word (the separators stay): n tokens after a split on
+	// U+0020 but only n-1 words
+	for p := 0; p < n; p++ {
+		t := append([]string(nil), base...)
+		t[p] = ""
+		sEmpty := join(t)
+		emit(SCase{S: sEmpty, L: l, Tokens: ref.SplitSpace(sEmpty), Canon: false, Class: "empty-token"})
+	}
+	// a word removed from an n+1 / n+2 word sentence leaving its separator behind (the
+	// split count becomes acceptable again)
+	if n >= 15 {
+		for _, drop := range [][]int{{0}, {n - 1}, {3}, {2, 7}, {0, n - 1}, {n - 2, n - 1}, {0, 1, 2}} {
+			if n-len(drop) < 12 {
+				continue
+			}
+			t := append([]string(nil), base...)
+			for _, d := range drop {
+				t[d] = ""
+			}
+			sEmpty := join(t)
+			emit(SCase{S: sEmpty, L: l, Tokens: ref.SplitSpace(sEmpty), Canon: false, Class: "empty-token"})
+		}
+	}
+	// invisible characters (not white space, unchanged by NFKD) around the sentence and around tokens
 	s := join(base)
+	for _, inv := range invisibles {
+		for _, v := range []string{inv + s, s + inv, strings.Replace(s, " ", inv+" ", 1), strings.Replace(s, " ", " "+inv, 1), strings.Replace(s, " ", " "+inv+" ", 1)} {
+			emit(SCase{S: v, L: l, Tokens: ref.SplitSpace(v), Canon: false, Class: "invisible-affix"})
+		}
+	}
+	// separator damage (not canonical: only the implication of C03 applies)
 	for _, v := range []string{" " + s, s + " ", strings.Replace(s, " ", "  ", 1), strings.Replace(s, " ", "\t", 1), strings.Replace(s, " ", "\n", 1),
 		strings.Replace(s, " ", "\u00a0", 1), strings.Replace(s, " ", "\u2003", 1), strings.Replace(s, " ", "\u3000", 1),
 		strings.Replace(s, " ", "\u3000", -1), strings.Replace(s, " ", "", 1), strings.Replace(s, " ", "\t", -1), "\n" + s + "\n"} {
 		emit(SCase{S: v, L: l, Tokens: ref.SplitSpace(nfkdSep.Replace(v)), Canon: false, Class: "separator-damage"})
+	}
+}
+
+// invisibles are code points that are neither White_Space nor changed by NFKD.
+var invisibles = []string{"\ufeff", "\u200b", "\u200d", "\u00ad", "\u2060", "\u200e", "\x00", "\u034f"}
+
+// damageWord returns misspellings of list word w: each is a token a careless
+// validator might map to a list word (case folding, mark stripping, prefix
+// matching, affixes).
+func damageWord(w string) []string {
+	seen := map[string]bool{w: true}
+	var out []string
+	add := func(d string) {
+		if d != "" && !seen[d] {
+			seen[d] = true
+			out = append(out, d)
+		}
+	}
+	add(upperFirst(w))
+	add(strings.ToUpper(w))
+	add(strings.Title(w))
+	// strip combining marks (accent-less / dakuten-less spelling)
+	add(strings.Map(func(r rune) rune {
+		if unicode.Is(unicode.Mn, r) {
+			return -1
+		}
+		return r
+	}, w))
+	rs := []rune(w)
+	if len(rs) > 4 {
+		add(string(rs[:4])) // unique-prefix spelling
+	}
+	if len(rs) > 1 {
+		add(string(rs[:len(rs)-1]))
+		add(string(rs[1:]))
+	}
+	add(w + "s")
+	add(w + "\u0301")
+	add(w + "\u200b")
+	add("\ufeff" + w)
+	add(w + ".")
+	add(w + ",")
+	return out
+}
+
+// wordDamageCases enumerates, for list word i of language l, every misspelling
+// of damageWord placed into reference-valid contexts (ctx different sentences,
+// varying the other words and the position), plus the canonical word of every
+// other language with the same index.
+func wordDamageCases(m *ref.Model, l, i, ctx int, emit func(SCase)) {
+	w := m.List[l][i]
+	toks := damageWord(w)
+	for fl := 0; fl < ref.NLang; fl++ {
+		if fl != l {
+			toks = append(toks, m.List[fl][i])
+		}
+	}
+	counts := []int{12, 15, 18, 21, 24}
+	for k := 0; k < ctx; k++ {
+		n := counts[(i+k)%5]
+		if k > 0 {
+			n = 12 // smallest checksum: highest chance that a wrong index still passes
+		}
+		L := n / 3 * 4
+		p := (i + k) % (n - 1)
+		e := make([]byte, L)
+		for b := range e {
+			e[b] = byte(k*53 + b*k)
+		}
+		setWindow(e, p, i)
+		words := m.Words(e, l)
+		for _, d := range toks {
+			t := append([]string(nil), words...)
+			t[p] = d
+			emit(SCase{S: strings.Join(t, " "), L: l, Tokens: ref.SplitSpace(strings.Join(t, " ")), Canon: !strings.ContainsAny(d, " \t"), Class: "word-damage"})
+		}
 	}
 }
 
@@ -200,5 +305,20 @@ func (c *Ctx) forAllSentenceCases(handle func(SCase)) {
 		}
 	}, func(j sentJob) {
 		sentenceCases(c.M, j.l, j.base, j.heavy, handle)
+	})
+	// per-word damage over all 10 x 2048 list words
+	type wj struct{ l, i int }
+	ctx := 4
+	if c.Thorough {
+		ctx = 16
+	}
+	Par(c.NCPU, func(emit func(wj)) {
+		for l := 0; l < ref.NLang; l++ {
+			for i := 0; i < 2048; i++ {
+				emit(wj{l, i})
+			}
+		}
+	}, func(j wj) {
+		wordDamageCases(c.M, j.l, j.i, ctx, handle)
 	})
 }
